@@ -638,6 +638,12 @@ fn delta_catalogue(a: RDt) -> Vec<i128> {
         -(a.secs as i128 * NS + a.frac as i128) - 1,      // 1 ns before midnight
         365 * DAY_NS, 366 * DAY_NS, 146_097 * DAY_NS, -146_097 * DAY_NS, ri::TD_MAX_NS, ri::TD_MIN_NS, ri::TD_MAX_NS - 1, ri::TD_MIN_NS + 1,
     ];
+    // whole-day counts at the 32-bit narrowing boundaries (a day count that wraps lands in range)
+    for e in [1i128 << 31, -(1i128 << 31), 1i128 << 32, -(1i128 << 32), (1i128 << 32) + 10, -(1i128 << 32) - 10, (1i128 << 33) - 365] {
+        for k in [-DAY_NS, -1, 0, 1, DAY_NS] {
+            v.push(e * DAY_NS + k);
+        }
+    }
     for k in [-2i128, -1, 0, 1, 2] {
         v.push(to_max + k);
         v.push(to_min + k);
@@ -648,7 +654,7 @@ fn delta_catalogue(a: RDt) -> Vec<i128> {
 }
 
 fn random_delta(rng: &mut Rng) -> i128 {
-    match rng.below(8) {
+    match rng.below(9) {
         0 => rng.range(-2_000_000_000, 2_000_000_000) as i128,
         1 => rng.range(-200_000, 200_000) as i128 * NS + rng.range(-999_999_999, 999_999_999) as i128,
         2 => rng.log_i64(63) as i128,
@@ -656,7 +662,12 @@ fn random_delta(rng: &mut Rng) -> i128 {
         4 => rng.range128(ri::TD_MIN_NS, ri::TD_MAX_NS),
         5 => rng.range(-400 * 366, 400 * 366) as i128 * DAY_NS + rng.range(-1, 1) as i128,
         6 => rng.range128(-(ri::max_ns() - ri::min_ns()), ri::max_ns() - ri::min_ns()),
-        _ => rng.range(-100, 100) as i128 * DAY_NS + rng.range(-5, 5) as i128,
+        7 => rng.range(-100, 100) as i128 * DAY_NS + rng.range(-5, 5) as i128,
+        _ => {
+            // multiples of 2^31 / 2^32 days plus a short distance: must be refused, not wrapped
+            let m = *rng.pick(&[1i128 << 31, -(1i128 << 31), 1i128 << 32, -(1i128 << 32), 3i128 << 32, -(5i128 << 32)]);
+            (m + rng.range(-800_000, 800_000) as i128) * DAY_NS + rng.range(-1, 1) as i128 * rng.range(0, 86_399_999_999_999) as i128
+        }
     }
 }
 
